@@ -5,6 +5,7 @@ import (
 	"io"
 	"sort"
 	"strconv"
+	"strings"
 	"unicode/utf8"
 
 	spb "google.golang.org/genproto/googleapis/rpc/status"
@@ -191,6 +192,38 @@ func genMetaPlan(c *Chooser, p *RPCPlan, binMode int) {
 		at := c.Intn(len(ops)+1, "metaat")
 		op := Op{Kind: kind, MD: genMDMode(c, 3, binMode)}
 		ops = append(ops[:at], append([]Op{op}, ops[at:]...)...)
+	}
+	// repeated SetHeader / SetTrailer calls often mention the same key again:
+	// the values accumulate in call order (no draw: the second call of a kind
+	// takes over one key of the first)
+	for _, kind := range []int{OpSetHeader, OpSetTrailer} {
+		var first metadata.MD
+		for i := range ops {
+			if ops[i].Kind != kind && !(kind == OpSetHeader && ops[i].Kind == OpSendHeader) {
+				continue
+			}
+			if first == nil {
+				if len(ops[i].MD) > 0 {
+					first = ops[i].MD
+				}
+				continue
+			}
+			if ops[i].MD == nil {
+				ops[i].MD = metadata.MD{}
+			}
+			var keys []string
+			for k := range first {
+				keys = append(keys, k)
+			}
+			sort.Strings(keys)
+			for _, k := range keys {
+				if !strings.HasSuffix(k, "-bin") || binMode > 0 {
+					ops[i].MD[k] = append([]string{"again"}, ops[i].MD[k]...)
+					break
+				}
+			}
+			break
+		}
 	}
 	st := genStatusFull(c)
 	if st != nil && c.Intn(2, "failearly") == 0 {
